@@ -123,7 +123,7 @@ func init() {
 	reg(&PropDef{
 		ID:     "C06",
 		Level:  "other",
-		Funcs:  []string{"tcell.(*tScreen).finish", "tcell.(*tScreen).Show", "tcell.(*tScreen).Sync", "tcell.(*baseScreen).ChannelEvents", "tcell.(*baseScreen).PollEvent"},
+		Funcs:  []string{"tcell.(*tScreen).finish", "tcell.(*tScreen).Show", "tcell.(*tScreen).Sync", "tcell.(*tScreen).engage", "tcell.(*baseScreen).ChannelEvents", "tcell.(*baseScreen).PollEvent"},
 		Custom: []func(*PropRun){c06Discipline, c06Replays},
 		Trusted: []string{"Tty contract: Drain wakes a pending Read, which then returns; Stop/Close return (assumed; the tty is outside the verified code)",
 			"a goroutine that is not blocked on a channel operation, the screen lock or the tty runs to completion (no other blocking primitives in the waited-for goroutines: checked syntactically for channel operations only)"},
@@ -134,7 +134,8 @@ func init() {
 		ID:    "C13",
 		Level: "proof",
 		Funcs: []string{"tcell.(*tScreen).drawCell", "tcell.(*tScreen).draw", "tcell.(*CellBuffer).Dirty", "tcell.(*CellBuffer).SetDirty", "tcell.(*CellBuffer).LockCell", "tcell.(*CellBuffer).UnlockCell",
-			"tcell.(*CellBuffer).SetContent", "tcell.(*CellBuffer).GetContent"},
+			"tcell.(*CellBuffer).SetContent", "tcell.(*CellBuffer).GetContent", "tcell.(*CellBuffer).Fill", "tcell.(*CellBuffer).Invalidate"},
+		Custom: []func(*PropRun){c13Corner},
 		Trusted: []string{"emission primitives (tScreen.TPuts, writeString, sendFgBg; terminfo TGoto/TParm/TColor): only their frame is assumed here (spec/trusted/emit.spec); what they emit is decided by C07/C15/C17",
 			"Tty.Write / io.Writer.Write report a count within bounds and touch no verified state (assumed)"},
 		Assume: []string{"drawCell is verified for calls on cells that are NOT dirty (unchanged, locked, or off the buffer): no output of any kind, no state change, width reported; the path that paints a dirty cell exceeds the verifier's path budget: its frame (only the cell itself and, for the auto-margin corner, its left neighbour change) and 'returns at least 1' are ASSUMED clauses",
@@ -1029,8 +1030,26 @@ func (t *c06RecTty) Drain() error                     { select { case t.wake <- 
 func (t *c06RecTty) NotifyResize(cb func())           {}
 func (t *c06RecTty) WindowSize() (WindowSize, error)  { return WindowSize{Width: 80, Height: 24}, nil }
 `
+	again := replayTest("tcell", []string{"sync", "runtime", "time", modPath + "/terminfo", "_ " + modPath + "/terminfo/base"}, `
+	ti, err := terminfo.LookupTerminfo("xterm")
+	if err != nil { fail("no xterm description: %v", err); return }
+	tty := &c06RecTty{wake: make(chan struct{}, 4)}
+	s, err := NewTerminfoScreenFromTtyTerminfo(tty, ti)
+	if err != nil { fail("new screen: %v", err); return }
+	if err := s.Init(); err != nil { fail("init: %v", err); return }
+	s.Fini()
+	time.Sleep(50 * time.Millisecond)
+	before := runtime.NumGoroutine()
+	rerr := s.Resume()
+	time.Sleep(50 * time.Millisecond)
+	if rerr == nil || runtime.NumGoroutine() > before {
+		fail("Resume() after Fini() returned %v and left %d more goroutine(s) running: a finished screen came back to life", rerr, runtime.NumGoroutine()-before)
+		return
+	}`) + strings.SplitN(inert, "\ntype c06RecTty struct", 2)[0][:0] + "\ntype c06RecTty struct" + strings.SplitN(inert, "\ntype c06RecTty struct", 2)[1]
 	for _, g := range run.Groups {
 		switch {
+		case g.Name == "tcell.(*tScreen).engage/ensures#finished-stays-down":
+			g.ReplayGo = again
 		case g.Name == "tcell.(*tScreen).finish/ensures#finished" || strings.HasPrefix(g.Name, "tcell.(*tScreen).Show/ensures#inert") || strings.HasPrefix(g.Name, "tcell.(*tScreen).Sync/ensures#inert"):
 			g.ReplayGo = inert
 		case strings.HasPrefix(g.Name, "tScreen.(*tScreen).scanInput/blocking#") && strings.HasSuffix(g.Name, "/stops-on-suspend"):
